@@ -1,5 +1,5 @@
 """C12 - a failed edit leaves the target tree untouched and still editable."""
-from contracts import k_modifying
+from contracts import k_modifying, k_order
 from pyvc.contract import verify_all
 from pyvc import native
 
@@ -7,6 +7,7 @@ from pyvc import native
 def run(rep, tier, seed):
     verify_all(rep, k_modifying.specs('C12'))
     k_modifying.usage_structural(rep, 'C12')
+    k_order.c12_handlers(rep, 'C12')
     sec = native.run('b_edit', 'main', {'props': ['C12'], 'tier': tier, 'seed': seed,
                                         'ops': ['remove', 'donor', 'slice', 'views', 'optional'], 'norm': True})
     sec['native_entry'] = ('b_edit', 'replay')
@@ -14,5 +15,6 @@ def run(rep, tier, seed):
     sec = native.run('b_raw', 'main', {'props': ['C12'], 'tier': tier, 'seed': seed, 'ops': ['reparse', 'rawput']})
     sec['native_entry'] = ('b_raw', 'replay')
     rep.bounded(sec)
-    rep.remainder = ('the hundreds of raise sites inside individual handlers after a partial splice: only the bounded '
-                     'sweep sees them')
+    rep.remainder = ('raise sites inside handlers for which no order obligation could be generated (listed under '
+                     'order_handlers_not_registered), and raise sites inside the mutating helpers themselves after a partial '
+                     'splice: only the bounded sweep sees them')
